@@ -315,7 +315,28 @@ def semlock_forgets_ownership_in_a_forked_child(ctx, rule):
            % sorted(t for t in g if t != 'sem_unlink'))
 
 
+
+def r17_8(ctx):
+    ctx.rule('R17.8', 'the after-fork hook of a lock only resets the child\'s own bookkeeping: it never releases or '
+                      'acquires the semaphore, which is shared with the parent (a child that "gives back" a lock its '
+                      'parent holds lets a second holder in)', floor=1)
+    m = ctx.model
+    fi = m.func('synchronize:SemLock.__init__')
+    cands = list(fi.children.values()) + [f for qn, f in m.funcs.items()
+                                          if f.module is fi.module and f.cls is None and f.parent is None]
+    hooks = [ch for ch in cands if any(isinstance(x, ast.Call) and isinstance(x.func, ast.Attribute) and
+                                       x.func.attr == '_after_fork' for x in ast.walk(ch.node))]
+    q.need(hooks, 'SemLock: after-fork hook not found')
+    for h in hooks:
+        bad = [x for x in walk_own(h.node) if isinstance(x, ast.Call) and isinstance(x.func, ast.Attribute) and
+               x.func.attr in ('release', 'acquire', '__exit__', '__enter__')]
+        ctx.ob('R17.8', 'after-fork-hook:%s:touches-only-own-bookkeeping' % h.name, not bad, h, bad[0] if bad else None,
+               'the hook calls _after_fork() only' if not bad else
+               '`%s` in the after-fork hook operates on the semaphore the parent still uses' % ast.unparse(bad[0])[:40])
+
+
 def run(ctx):
+    r17_8(ctx)
     semlock_forgets_ownership_in_a_forked_child(ctx, 'R17.6')
     # Lock / Semaphore / BoundedSemaphore / Condition hand kind, value and bound on to SemLock unchanged
     from .generic import ctor_forwards_params
@@ -332,6 +353,7 @@ def run(ctx):
 
 _Y = 'billiard/synchronize.py'
 MUTANTS = [
+    ('after-fork-hook-gives-the-lock-back', 'billiard/synchronize.py', "                def _after_fork(obj):\n                    obj._semlock._after_fork()\n", "                def _after_fork(obj):\n                    if obj._semlock._is_mine():\n                        obj._semlock.release()\n                    obj._semlock._after_fork()\n", 'R17.8'),
     ('semaphore-ignores-its-initial-value', 'billiard/synchronize.py', "        SemLock.__init__(self, SEMAPHORE, value, SEM_VALUE_MAX, ctx=ctx)", "        SemLock.__init__(self, SEMAPHORE, 1, SEM_VALUE_MAX, ctx=ctx)", 'R17.7'),
     ('bounded-semaphore-bound-not-its-value', 'billiard/synchronize.py', "        SemLock.__init__(self, SEMAPHORE, value, value, ctx=ctx)", "        SemLock.__init__(self, SEMAPHORE, value, SEM_VALUE_MAX, ctx=ctx)", 'R17.1'),
     ('after-fork-hook-only-for-named-semaphores', 'billiard/synchronize.py',
